@@ -266,13 +266,28 @@ func (c *Checker) helperCall(v ssa.Value) (call *ssa.Call, isErr bool, pol bool)
 	if bo, ok := v.(*ssa.BinOp); ok && (bo.Op == token.EQL || bo.Op == token.NEQ) {
 		var other ssa.Value
 		var cl *ssa.Call
-		if x, ok := bo.X.(*ssa.Call); ok {
-			cl, other = x, bo.Y
-		} else if y, ok := bo.Y.(*ssa.Call); ok {
-			cl, other = y, bo.X
+		isErrVal := false
+		asErrCall := func(v ssa.Value) *ssa.Call {
+			if x, ok := v.(*ssa.Call); ok && x.Type().String() == "error" {
+				return x
+			}
+			// the error component of a multi-value helper: (..., error)
+			if ex, ok := v.(*ssa.Extract); ok {
+				if x, ok := ex.Tuple.(*ssa.Call); ok {
+					if tup, ok := x.Type().(*types.Tuple); ok && ex.Index == tup.Len()-1 && tup.At(ex.Index).Type().String() == "error" {
+						return x
+					}
+				}
+			}
+			return nil
+		}
+		if x := asErrCall(bo.X); x != nil {
+			cl, other, isErrVal = x, bo.Y, true
+		} else if y := asErrCall(bo.Y); y != nil {
+			cl, other, isErrVal = y, bo.X, true
 		}
 		if cl != nil {
-			if k, ok := other.(*ssa.Const); ok && k.Value == nil && cl.Type().String() == "error" {
+			if k, ok := other.(*ssa.Const); ok && k.Value == nil && isErrVal {
 				// value of (call == nil) is pol for EQL
 				if bo.Op == token.NEQ {
 					pol = !pol
@@ -350,6 +365,9 @@ func (c *Checker) helperImplies(call *ssa.Call, isErr bool, want bool, atoms []A
 								}
 							}
 						}
+					}
+					if !covered && hc.edgeEstablishes(phi.Block().Preds[i], phi.Block(), atoms) {
+						covered = true
 					}
 					if !covered {
 						if ok, _ := hc.MustPass(phi.Block().Preds[i], atoms); ok {
@@ -474,6 +492,30 @@ func (c *Checker) directCut(atoms []Atom) map[cfgx.Edge]bool {
 	return cut
 }
 
+// edgeEstablishes: the branch condition of `from`, on its edge to `to`, establishes one of the atoms.
+func (c *Checker) edgeEstablishes(from, to *ssa.BasicBlock, atoms []Atom) bool {
+	iff := cfgx.IfOf(from)
+	if iff == nil || len(from.Succs) != 2 {
+		return false
+	}
+	p, pol, ok := c.pred(iff.Cond)
+	if !ok {
+		return false
+	}
+	holds := pol // on the true edge the predicate has polarity pol
+	if from.Succs[1] == to && from.Succs[0] != to {
+		holds = !pol
+	} else if from.Succs[0] != to {
+		return false
+	}
+	for _, a := range atoms {
+		if len(a.Req) == 0 && a.matches(p, holds) {
+			return true
+		}
+	}
+	return false
+}
+
 // phiImplies: does the boolean φ having the value `want` imply one of the atoms? Every incoming value that can be
 // `want` must either be a comparison that matches an atom at that polarity, or arrive from a block that is itself
 // reached only through the atoms (the `A` of `A && B`, decided by the branch that leads to the evaluation of B).
@@ -494,6 +536,11 @@ func (c *Checker) phiImplies(phi *ssa.Phi, want bool, atoms []Atom) bool {
 						covered = true
 					}
 				}
+			}
+		}
+		if !covered && i < len(phi.Block().Preds) {
+			if c.edgeEstablishes(phi.Block().Preds[i], phi.Block(), atoms) {
+				covered = true
 			}
 		}
 		if !covered && i < len(phi.Block().Preds) {
@@ -531,6 +578,9 @@ func (c *Checker) forallEdges(a Atom) map[cfgx.Edge]bool {
 			continue
 		}
 		xt := c.Res.Of(call.Call.Args[0]).String()
+		if len(c.Subst) > 0 {
+			xt = substParams(xt, c.Subst, "#callee") // inside a helper: the list in the caller's vocabulary
+		}
 		if !a.A.MatchString(strings.ReplaceAll(xt, "~", "")) && !a.A.MatchString(xt) {
 			continue
 		}
